@@ -8,6 +8,13 @@ The cells live in helper modules (imported here so that they register):
   _c02_mttkrp    mttkrp (five holders; factor list or Kruskal operand with non-unit weights), tensor.mttkrps
   _c02_pairs     ttt, innerprod (every supported ordered pair of classes), scale, mask
   _c02_unary     ttsv, norm (incl. tenmat / sptenmat), contract, collapse, ttensor.reconstruct
+  _c02_states    (round 2) derived object states and storage dtypes of the holders: every holder comes into being
+                 through the constructor or through a short history of public operations (growth by assignment,
+                 permute, reshape, slicing, normalize(weight_factor=k), scale by zero ...) that ends in an object
+                 denoting the same array
+  _c02_chain     (round 2) results of one operation fed into the next (with exact cancellation), and several calls
+                 on the same operand objects
+  _c02_bool      (round 2) indicator tensors stored as booleans (comparison results) as operands
   _c02_findings  predicates referenced by known_findings/C02.json
 """
 
@@ -20,6 +27,8 @@ from . import _c02_modes  # noqa: F401
 from . import _c02_mttkrp  # noqa: F401
 from . import _c02_pairs  # noqa: F401
 from . import _c02_unary  # noqa: F401
+from . import _c02_chain  # noqa: F401
+from . import _c02_bool  # noqa: F401
 from ._c02_findings import PREDICATES  # noqa: F401
 
 logging.disable(logging.WARNING)  # pyttb logs a warning per no-copy construction; not a verdict
@@ -37,9 +46,33 @@ RULE = (
     "side of 50 %.  Non-trivial: >= 2 distinct mode sizes, selected modes not an ascending prefix listed in order, "
     "non-constant multiplicands and a non-zero expected result (per-operation analogues for the kernels without a "
     "mode designation: N>=3 and rank>=2 for mttkrp, unequal/unsorted dims for ttt, a trace size >=2 for contract, "
-    "a mask hitting both zeros and nonzeros, ...)."
+    "a mask hitting both zeros and nonzeros, ...).  "
+    "Round 2: every holder also carries a *state* = how the object comes into being (constructor, or a short history "
+    "of public operations ending in an object that denotes the same array: dense grown by assignment / permuted / "
+    "reshaped / sliced / squeezed / from tenmat / from sptensor; sparse with explicitly stored zeros (unvalidated "
+    "constructor, scale by a factor with zeros, S*0+T), numpy-int shape, grown, permuted, from_aggregator, "
+    "tensor.to_sptensor; Kruskal after normalize(weight_factor=k | None | 'all'), arrange, redistribute, K1+K2, "
+    "permute; Tucker with a core in any of these states handed over with copy=False or copied, or permuted) and a "
+    "storage dtype (integer-valued data as float64 / int64 / int32 / uint8; multiplicand vectors, matrices, factor "
+    "matrices and second tensors with their own dtype, value kind (int data with float multiplicands and vice versa) "
+    "and memory layout C / F / strided view).  Labels state-* (asked for), state-achieved:* / state-fallback:* and "
+    "obj-* (what the built object really looks like: not F-contiguous, numpy ints in shape, stored zeros, dtype).  "
+    "Chain cells feed the result of one operation into the next (with mirrored slices so that sums cancel exactly in "
+    "sparse results) and repeat the first call at the end; sequence cells make 2-4 calls sharing receiver, factor "
+    "operand, vector list and second tensor."
 )
 ASSUMPTIONS = [
+    "derived states are produced through the public API only; the operations that make up a history are judged by "
+    "other properties (C03/C04/C07): a builder checks by reading attributes that the object denotes the holder's array "
+    "and otherwise falls back to the constructor (label state-fallback:*)",
+    "a Kruskal holder whose history normalises it is compared within the rounding bound even for integer-valued case "
+    "data (normalising is not exact); MTTKRP with a Kruskal *operand* in a derived state is defined by the operand's "
+    "parameters (weights and factor matrices read from the built object), not only by the array it denotes",
+    "two narrow-integer (uint8) operands are never combined: their products wrap around by NumPy's own promotion "
+    "rules; a narrow-integer operand meets float64 / int64 / int32 ones",
+    "float32 data is not generated (the rounding bounds are stated for float64 arithmetic)",
+    "a mask W is given as float64 / int64 / uint8 / bool ones; a sparse W keeps its stored order (no derived history "
+    "that would re-order it, and no explicitly stored zeros, whose meaning as 'ones of W' is not defined)",
     "multiplicand alignment: a list as long as the listed dims pairs multiplicand j with dims[j]; a list as long as "
     "the tensor order pairs multiplicand d with mode d (unused entries are junk of any shape and must not be looked "
     "at); with exclude_dims and one multiplicand per selected mode they follow the remaining modes in ascending "
